@@ -26,6 +26,8 @@ type gnode struct {
 	Name string `json:"name"` // full error text ("was expecting ...") for term / named / named seq
 }
 
+const maxAlts = 120
+
 type tooBig struct{}
 type boundExceeded struct{}
 
@@ -142,7 +144,7 @@ func (t *tracer) cpJ(cp data.IntSet) []int {
 func (t *tracer) probe(id int, p parsley.Parser) parser.Func {
 	return func(ctx *parsley.Context, l data.IntMap, pos parsley.Pos) (parsley.Node, data.IntSet, parsley.Error) {
 		t.count++
-		if len(t.ev) > t.budget || (t.preflight && t.count > 4*t.budget) {
+		if len(t.ev) > t.budget || (t.preflight && t.count > 2*t.budget) {
 			t.over = true
 			panic(tooBig{})
 		}
@@ -174,6 +176,13 @@ func (t *tracer) probe(id int, p parsley.Parser) parser.Func {
 		}
 		n, cp, err := p.Parse(ctx, l, pos)
 		t.stack = t.stack[:len(t.stack)-1]
+		if t.preflight {
+			if nl, ok := n.(ast.NodeList); ok && len(nl) > maxAlts {
+				// explosively ambiguous: result lists of hundreds of alternatives are not judged
+				t.over = true
+				panic(tooBig{})
+			}
+		}
 		if g := t.g[id-1]; (g.K == "term" || g.K == "end") && n == nil {
 			t.attempts[[2]int{int(pos), id}] = true
 		} else if (g.K == "named" || (g.K == "seq" && g.Name != "")) && n == nil {
@@ -314,7 +323,7 @@ func build(G []gnode, t *tracer) []parsley.Parser {
 				// which the judged run (default result handler, untouched) cannot do
 				s = s.HandleResult(combinator.SeqResultHandlerFunc(func(pos parsley.Pos, token string, nodes []parsley.Node, interp parsley.Interpreter) parsley.Node {
 					t.count++
-					if t.count > 4*t.budget {
+					if t.count > 2*t.budget {
 						t.over = true
 						panic(tooBig{})
 					}
